@@ -15,6 +15,8 @@ pub mod c08;
 pub mod c09;
 pub mod c14;
 pub mod c15;
+pub mod c16;
+pub mod c17;
 pub mod c18;
 
 pub fn meta(args: &Args, rule: &str, assumptions: &[&str]) -> Meta {
@@ -42,6 +44,8 @@ pub fn dispatch(args: &Args) -> i32 {
         "C06" => c06::run(args),
         "C08" => c08::run(args),
         "C15" => c15::run(args),
+        "C16" => c16::run(args),
+        "C17" => c17::run(args),
         "C18" => c18::run(args),
         other => {
             eprintln!("unknown check {other}");
